@@ -277,6 +277,14 @@ M("c04.rfc6979.assert.revert", "C04", DSSPY, "assert 0 <= int_mod_q < self._orde
 M("c04.rfc6979.bits2int.shift", "C04", DSSPY, "if b_len > q_len:", "if b_len >= q_len + 8:", "K-pw|rfc6979.conversions")
 M("c04.rfc6979.bits2octets.reduce", "C04", DSSPY, "        if z1 < self._order:\n            z2 = z1", "        if z1 <= self._order:\n            z2 = z1", "K-pw|rfc6979.conversions")
 M("c06.neutral.edwards.revert", "C06", "lib/Crypto/PublicKey/_point.py", "return self.xy == (0, 1)", "return self.x == 0", "K-pw|neutral.predicate")
+PTPY = "lib/Crypto/PublicKey/_point.py"
+M("c06.point.iadd.swapped", "C06", PTPY, "result = add_func(self._point.get(), point._point.get())", "result = add_func(point._point.get(), self._point.get())", "K-pw|point.iadd.inplace")
+M("c06.point.mul.nocopy", "C06", PTPY, "        np = self.copy()\n        np *= scalar\n        return np\n\n    def __rmul__(self, left_hand):\n        return self.__mul__(left_hand)\n\n\nclass EccXPoint", "        np = self\n        np *= scalar\n        return np\n\n    def __rmul__(self, left_hand):\n        return self.__mul__(left_hand)\n\n\nclass EccXPoint", "K-pw|point.value.operators")
+M("c19.point.add.nocopy", "C19", PTPY, "        np = self.copy()\n        np += point\n        return np", "        np = self\n        np += point\n        return np", "P6|point.value.operators")
+M("c19.xpoint.copy.self", "C19", PTPY, "        return EccXPoint(x, self.curve)", "        return self", "P6|point.x.copy.independent")
+M("c06.point.neg.inplace", "C06", PTPY, "        np = self.copy()\n        result = neg_func(np._point.get())", "        np = self\n        result = neg_func(np._point.get())", "K-pw|point.value.operators")
+M("c06.xpoint.infinity.copy", "C06", PTPY, "        except ValueError:\n            return self.point_at_infinity()\n        return EccXPoint(x, self.curve)", "        except ValueError:\n            return EccXPoint(0, self.curve)\n        return EccXPoint(x, self.curve)", "K-pw|point.x.copy.independent")
+M("c06.point.eq.swapped.sense", "C06", PTPY, "        return 0 == cmp_func(self._point.get(), point._point.get())", "        return 0 != cmp_func(self._point.get(), point._point.get())", "K-pw|point.compare")
 RSAPY = "lib/Crypto/PublicKey/RSA.py"
 M("c07.toy.rsa.crt.h", "C07", RSAPY, "h = ((m2 - m1) * self._u) % self._q", "h = ((m1 - m2) * self._u) % self._q", "K-pw|rsa.toy.decrypt")
 M("c07.toy.rsa.crt.abs", "C07", RSAPY, "h = ((m2 - m1) * self._u) % self._q", "h = (abs(m2 - m1) * self._u) % self._q", "K-pw|rsa.toy.decrypt")
